@@ -18,9 +18,21 @@
 // Besides the trace (validated by TLC) a direct monitor evaluates the property on the run:
 // after every setL1Head the database must hold exactly the best merged, not removed event at or
 // below the reported finalised height.
+//
+// Storage faults (the write-fault dimension of L1.tla): the Blockchain sits on the shared
+// fault-injecting store (harness/internal/faultkv). When the scheduler answers the FinalisedHeight
+// call of a setL1Head it may arm the store to fail the next durable mutation - in these runs only
+// the Put of the L1-head record is one. The wrapper logs WriteFail at the failing Put; Run returning
+// by itself is logged as Stopped, the head is read, and a new client is started on the same
+// database (Restart). The monitor checks the conditional property: a client that is still running
+// after a completed setL1Head has the best merged finalised event recorded, whatever happened to
+// the write. The L1-head feed is drained by the scheduler whenever the client is blocked or has
+// stopped (at most one SetL1Head lies between two provider calls, so nothing is lost): Feed events
+// are part of the trace, and what the feed announced last must be what the database holds.
 package l1
 
 import (
+	"bytes"
 	"context"
 	"encoding/json"
 	"errors"
@@ -41,6 +53,7 @@ import (
 	"github.com/NethermindEth/juno/core/felt"
 	"github.com/NethermindEth/juno/db"
 	"github.com/NethermindEth/juno/db/memory"
+	"github.com/NethermindEth/juno/encoder"
 	_ "github.com/NethermindEth/juno/encoder/registry"
 	jl1 "github.com/NethermindEth/juno/l1"
 	"github.com/NethermindEth/juno/l1/eth"
@@ -50,6 +63,7 @@ import (
 	"github.com/ethereum/go-ethereum/core/types"
 	"github.com/ethereum/go-ethereum/rpc"
 
+	"verifharness/internal/faultkv"
 	"verifharness/internal/vh"
 )
 
@@ -60,6 +74,7 @@ const (
 	maxPerBlock = 2
 	maxReorgs   = 3
 	maxFail     = 4
+	maxWriteFail = 2 // failed writes of the L1-head record per run
 )
 
 type event struct {
@@ -67,6 +82,7 @@ type event struct {
 	X  int    `json:"x"`
 	Y  int    `json:"y"`
 	Q  int    `json:"q"`
+	W  int    `json:"w"` // RetFin: 1 = the store is armed to fail the next Put of the L1-head record
 }
 
 type input struct {
@@ -433,6 +449,46 @@ type run struct {
 	httpSrv   *httptest.Server
 	forceFail bool   // the connection was dropped: the pending call cannot succeed
 	broken    string // harness problem detected inside a node action
+
+	// storage faults
+	store       *headStore
+	writeFailed int // event id of the head whose Put was failed since the scheduler last looked (0 none)
+	wfails      int // failed writes so far
+	prevStored  int // the expected head before the setL1Head that is being answered
+}
+
+// headStore is the database under the Blockchain: the shared fault-injecting store with the outcome
+// of a Put of the L1-head record observed (and logged) at the Put itself, the linearisation point.
+type headStore struct {
+	*faultkv.Store
+	r *run
+}
+
+func (s *headStore) Put(k, v []byte) error {
+	err := s.Store.Put(k, v)
+	if errors.Is(err, faultkv.ErrInjected) && bytes.Equal(k, db.L1Height.Key()) {
+		var h core.L1Head
+		id := -1
+		if encoder.Unmarshal(v, &h) == nil {
+			id = headID(h)
+		}
+		s.r.log(event{Ev: "WriteFail", X: id})
+		s.r.mu.Lock()
+		s.r.writeFailed = id
+		s.r.wfails++
+		s.r.mu.Unlock()
+	}
+	return err
+}
+
+func (s *headStore) WithListener(db.EventListener) db.KeyValueStore { return s }
+
+func (r *run) takeWriteFailed() int {
+	r.mu.Lock()
+	defer r.mu.Unlock()
+	id := r.writeFailed
+	r.writeFailed = 0
+	return id
 }
 
 func (r *run) log(e event) {
@@ -764,7 +820,8 @@ func oneRun(seed int64, idx, rounds int, lag, geth bool) outcome {
 		r.finalise(1 + rng.Intn(1+r.top()/2))
 	}
 
-	r.bc = blockchain.New(memory.New(), &networks.Sepolia)
+	r.store = &headStore{Store: faultkv.Wrap(memory.New()), r: r}
+	r.bc = blockchain.New(r.store, &networks.Sepolia)
 	p := &provider{calls: make(chan *gcall)}
 	// geth mode: every client incarnation gets its own in-process node endpoint (rpc server + websocket
 	// listener). A request the OLD client managed to put on the wire while it was being cancelled must
@@ -819,7 +876,7 @@ func oneRun(seed int64, idx, rounds int, lag, geth bool) outcome {
 		}
 		obsMu.Unlock()
 	}
-	observers.Add(2)
+	observers.Add(1)
 	go func() {
 		defer observers.Done()
 		defer func() {
@@ -868,25 +925,42 @@ func oneRun(seed int64, idx, rounds int, lag, geth bool) outcome {
 			}
 		}
 	}()
+	// the L1-head feed: taken by the scheduler while the client is blocked or has stopped (the
+	// subscription buffers one head and the client sends at most one between two provider calls)
 	feedSub := r.bc.SubscribeL1Head()
-	go func() {
-		defer observers.Done()
+	drainFeed := func() *violation {
+		last := -1
 		for {
 			select {
 			case h, ok := <-feedSub.Recv():
 				if !ok {
-					return
+					return nil
 				}
-				if h != nil {
-					r.mu.Lock()
-					r.feedIDs = append(r.feedIDs, headID(*h))
-					r.mu.Unlock()
+				if h == nil {
+					continue
 				}
-			case <-stopObservers:
-				return
+				last = headID(*h)
+				r.log(event{Ev: "Feed", X: last})
+				r.feedIDs = append(r.feedIDs, last)
+				continue
+			default:
 			}
+			break
 		}
-	}()
+		if last < 0 {
+			return nil
+		}
+		// write first, announce second: what the feed announced last is what the database holds
+		got := 0
+		if h, err := r.bc.L1Head(); err == nil {
+			got = headID(h)
+		}
+		if got != last {
+			return &violation{"l1:head-feed:announced-not-recorded", fmt.Sprintf(
+				"the L1-head feed announced event %d while the database holds event %d (0 = none): the head was announced without being recorded", last, got)}
+		}
+		return nil
+	}
 
 	type runEnd struct {
 		err      error
@@ -1007,25 +1081,111 @@ func oneRun(seed int64, idx, rounds int, lag, geth bool) outcome {
 	checkPending := false    // a setL1Head completed since the last check
 	nextFinIsSnapshot := false // the next FinalisedHeight call is catch-up's snapshot, not a setL1Head
 	finalDone := false
+	armed := false // the store fails the next Put of the head record
+	live := false  // this client has subscribed: its setL1Head calls are those of the ticker
+	// newIncarnation forgets everything the old client object knew and starts a new client on the
+	// same database (the Restart action of L1.tla).
+	newIncarnation := func() string {
+		r.base = r.expStored
+		r.ch, r.sub, r.subUp = nil, nil, false
+		r.sent, r.consumed, r.filterApplied = nil, 0, nil
+		r.delivered = map[int]bool{}
+		if r.base != 0 {
+			r.delivered[r.base] = true
+		}
+		r.forceFail = false
+		nextFinIsSnapshot, checkPending, live = false, false, false
+		return startClient()
+	}
+	phase := func() string {
+		if !live {
+			return "catchup"
+		}
+		return "tick"
+	}
 	for round := 0; ; round++ {
 		var c *gcall
 		select {
 		case c = <-p.calls:
 		case e := <-done:
-			done <- e // finish() collects it
+			// ---- Run returned by itself
 			if e.panicked != nil {
+				done <- e // finish() collects it
 				out.viol = &violation{"l1:panic", fmt.Sprint("l1.Client.Run panicked: ", e.panicked)}
-			} else {
-				out.broken = fmt.Sprintf("client.Run returned early: %v", e.err)
+				finish()
+				return out
 			}
-			finish()
-			return out
+			cancel()
+			ended := make(chan runEnd, 1) // finish() waits for a Run that has returned already
+			ended <- e
+			done = ended
+			r.store.Disarm()
+			armed = false
+			if v := drainFeed(); v != nil {
+				out.viol = v
+				finish()
+				return out
+			}
+			failed := r.takeWriteFailed()
+			if failed != 0 {
+				st["write_faults_fired"]++
+			}
+			if failed == 0 {
+				// the specification (StopOnlyOnWriteFailure) knows one reason for Run to return while its
+				// context is live: the head could not be written
+				out.viol = &violation{"l1:client-stopped:no-write-failure", fmt.Sprintf(
+					"l1.Client.Run returned by itself (error: %v) although no write of the L1 head had failed", e.err)}
+				finish()
+				return out
+			}
+			okv := 0
+			if e.err != nil {
+				okv = 1
+			}
+			r.log(event{Ev: "Stopped", X: okv})
+			st["stops_after_write_failure"]++
+			if e.err != nil && errors.Is(e.err, faultkv.ErrInjected) {
+				st["stops_with_the_store_error"]++
+			}
+			// the failed write left the record as it was
+			r.expStored = r.prevStored
+			checkPending = false
+			if v := r.checkHead(lastFin); v != nil {
+				v.key = "l1:head-write-failed:record-changed:" + strings.TrimPrefix(v.key, "l1:stored-head:")
+				out.viol = v
+				finish()
+				return out
+			}
+			// the node went down with the service; the operator starts it again
+			st["restarts_after_stop"]++
+			r.log(event{Ev: "Restart"})
+			if msg := newIncarnation(); msg != "" {
+				out.broken = msg
+				finish()
+				return out
+			}
+			continue
 		case <-time.After(gateTimeout):
 			out.broken = "client did not reach a provider call (quiescence timeout)"
 			finish()
 			return out
 		}
-		// ---- the client is blocked: log its arrival
+		// ---- the client is blocked: what it did since its last call
+		if armed {
+			r.store.Disarm()
+			armed = false
+		}
+		if v := drainFeed(); v != nil {
+			out.viol = v
+			finish()
+			return out
+		}
+		failedWrite := r.takeWriteFailed() // != 0: a write of the head failed and the client is still running
+		if failedWrite != 0 {
+			st["write_faults_fired"]++
+			st["running_after_write_failure"]++
+		}
+		// ---- log its arrival
 		if r.tap != nil {
 			r.ch = r.tap.channel()
 		}
@@ -1046,6 +1206,12 @@ func oneRun(seed int64, idx, rounds int, lag, geth bool) outcome {
 			}
 			checkPending = false
 			if v := r.checkHead(lastFin); v != nil {
+				if failedWrite != 0 {
+					// the conditional property: a client may stop on a failed write, it may not go on with a stale record
+					v.key = "l1:head-write-failed:running-with-stale-record:" + phase()
+					v.what = fmt.Sprintf("the Put of the L1-head record (event %d) failed, the client kept running (next call: %s) and %s",
+						failedWrite, c.m, v.what)
+				}
 				out.viol = v
 				finish()
 				return out
@@ -1092,16 +1258,7 @@ func oneRun(seed int64, idx, rounds int, lag, geth bool) outcome {
 			case c.resp <- gresp{err: errors.New("node restarted")}:
 			default:
 			}
-			r.base = r.expStored
-			r.ch, r.sub, r.subUp = nil, nil, false
-			r.sent, r.consumed, r.filterApplied = nil, 0, nil
-			r.delivered = map[int]bool{}
-			if r.base != 0 {
-				r.delivered[r.base] = true
-			}
-			r.forceFail = false
-			nextFinIsSnapshot, checkPending = false, false
-			if msg := startClient(); msg != "" {
+			if msg := newIncarnation(); msg != "" {
 				out.broken = msg
 				finish()
 				return out
@@ -1182,15 +1339,30 @@ func oneRun(seed int64, idx, rounds int, lag, geth bool) outcome {
 			nextFinIsSnapshot = !fail
 		case "Fin":
 			resp.val = uint64(r.fin)
-			r.log(event{Ev: "RetFin", X: okv, Y: r.fin})
+			w := 0
 			if nextFinIsSnapshot {
 				nextFinIsSnapshot = false
 			} else if !fail { // this answer completes a setL1Head
 				lastFin = r.fin
+				r.prevStored = r.expStored
 				r.expStored = r.best(r.fin)
 				checkPending = true
 				st["setheads"]++
+				// storage fault: the Put of the head record, if this setL1Head gets that far, fails
+				// (more often when the monitor expects the head to move: then there is a Put)
+				if !winding && r.wfails < maxWriteFail {
+					oneIn := 24
+					if r.expStored != r.prevStored {
+						oneIn = 5
+					}
+					if rng.Intn(oneIn) == 0 {
+						r.store.Arm(faultkv.FailAt, 1, nil)
+						armed, w = true, 1
+						st["write_faults_armed"]++
+					}
+				}
 			}
+			r.log(event{Ev: "RetFin", X: okv, Y: r.fin, W: w})
 		case "Filter":
 			var got []int
 			if !fail {
@@ -1217,6 +1389,7 @@ func oneRun(seed int64, idx, rounds int, lag, geth bool) outcome {
 				}
 				r.subUp = true
 				r.subPos = r.top()
+				live = true
 			}
 			r.log(event{Ev: "RetWatch", X: okv})
 		}
